@@ -98,10 +98,11 @@ func c15Permutations(c *mc.Check, k int) {
 	base := []string{
 		"BenchmarkA 1 100 ns/op 7 B/op",
 		"BenchmarkB/k=1 1 200 ns/op",
-		"BenchmarkA 1 104 ns/op 9 B/op",
+		"BenchmarkA 1 104 ns/op 9 allocs/op", // same row, same first unit, same number of values, another second unit
 		"BenchmarkC 1 50 ns/op",
 		"BenchmarkB/k=1 1 220 ns/op",
 		"BenchmarkA 1 90 ns/op 7 B/op",
+		"BenchmarkC 1 51 ns/op 2 allocs/op",
 	}[:k]
 	replay := func(raw json.RawMessage) string {
 		var perm []int
